@@ -13,7 +13,11 @@ package table
 //                   replaying the same ops with the hash induced by the real keys;
 //   oracle:         a plain Go map prefix → path set kept from the op log; every listing / lookup /
 //                   counter must equal the brute-force answer computed from that map
-//                   (no duplicates, nothing missing, nothing extra) — independent of the model.
+//                   (no duplicates, nothing missing, nothing extra) — independent of the model;
+//   snapshots:      "readers get snapshots": every value a reader is handed (destinations, destination
+//                   lists, path lists, Select result tables, Update results, AdjRib lists) is KEPT by the
+//                   harness over the next operations and must keep rendering exactly as it did when it was
+//                   handed out (class c02t-handed-out-value-changed:<accessor>).
 
 import (
 	"encoding/hex"
@@ -97,7 +101,12 @@ type c02tW struct {
 	// Loc-RIB table id → prefix → withdrawals that hit a path but were not marked dropped: each
 	// leaves one local id flagged, and a destination with a flagged id other than 0 is never deleted
 	leak map[int]map[string]int
-	hist []string
+	// values handed out by readers, kept across the following operations
+	held     []c02tHeld
+	opn      int
+	heldFail map[string]int
+	hot      []*c02tPfx
+	hist     []string
 }
 
 func c02tTok(p netip.Prefix) (fam int, tok, show string) {
@@ -204,7 +213,63 @@ func (w *c02tW) setup() {
 	}
 }
 
+// a value some accessor handed out, with the way to render it again
+type c02tHeld struct {
+	acc, what string
+	at        int
+	render    func() string
+	orig      string
+}
+
+const c02tHoldOps = 5 // a handed-out value is re-inspected after each of the next operations
+
+func (w *c02tW) hold(acc, what string, render func() string) {
+	w.held = append(w.held, c02tHeld{acc: acc, what: what, at: w.opn, render: render, orig: render()})
+	w.o.stat("held_values", 1)
+}
+
+// recheck runs after every single table operation: what readers were given earlier must not have moved
+func (w *c02tW) recheck() {
+	w.opn++
+	keep := w.held[:0]
+	for _, h := range w.held {
+		w.o.stat("held_value_reinspections", 1)
+		if now := h.render(); now != h.orig {
+			cls := "c02t-handed-out-value-changed:" + h.acc
+			if w.heldFail == nil {
+				w.heldFail = map[string]int{}
+			}
+			if w.heldFail[cls]++; w.heldFail[cls] <= 25 {
+				w.fail(cls, "%s(%s) handed out [%s]; %d operation(s) later the same value reads [%s]", h.acc, h.what, h.orig, w.opn-h.at, now)
+			}
+			continue
+		}
+		if w.opn-h.at < c02tHoldOps {
+			keep = append(keep, h)
+		}
+	}
+	w.held = keep
+}
+
+func (w *c02tW) pathsStr(ps []*Path) string {
+	l := make([]string, len(ps))
+	for i, p := range ps {
+		l[i] = w.pathStr(p)
+	}
+	return strings.Join(l, ",")
+}
+
+func (w *c02tW) holdUpdates(what string, us []*Update) {
+	for _, u := range us {
+		u := u
+		w.hold("TableManager.Update", what, func() string {
+			return "known=" + w.pathsStr(u.KnownPathList) + " old=" + w.pathsStr(u.OldKnownPathList)
+		})
+	}
+}
+
 func (w *c02tW) reset() {
+	w.held = w.held[:0]
 	fams := []bgp.Family{bgp.RF_IPv4_UC, bgp.RF_IPv6_UC}
 	w.tm = NewTableManager(w.log, fams)
 	w.adj = NewAdjRib(w.log, fams)
@@ -261,8 +326,11 @@ func (w *c02tW) announce(p *c02tPfx, src int, rid uint32, rej bool) {
 	path := w.newPath(p, src, rid, rank, false)
 	w.meta[path] = c02tMeta{src, tag, rid}
 	w.o.op("ann %d %s %d %d %d %d 0", lt, p.tok, src, rid, rank, tag)
-	w.tm.Update(path)
+	w.movesInPlace(lt, p, src, rid)
+	us := w.tm.Update(path)
 	w.wantPut(lt, p, c02tEnt{src, rid, tag, rank, false}, false)
+	w.recheck()
+	w.holdUpdates(p.show, us)
 	w.o.stat("op_announce", 1)
 	if src == 1 {
 		at := c02tAdj(p.fam)
@@ -276,6 +344,32 @@ func (w *c02tW) announce(p *c02tPfx, src int, rid uint32, rej bool) {
 		w.o.op("ann %d %s %d %d %d %d %d", at, p.tok, src, rid, rank, tag, rj)
 		w.adj.Update([]*Path{ap})
 		w.wantPut(at, p, c02tEnt{src, rid, tag, rank, rej}, true)
+		w.recheck()
+	}
+}
+
+// input-distribution counter: the operation removes or replaces a path that is not the last of a
+// destination holding three or more (the list is then shifted in place)
+func (w *c02tW) movesInPlace(tab int, p *c02tPfx, src int, rid uint32) {
+	l := w.want[tab][p.show]
+	if len(l) < 3 {
+		return
+	}
+	lowest := l[0]
+	found := false
+	for _, e := range l {
+		if e.rank < lowest.rank {
+			lowest = e
+		}
+		if e.src == src && e.rid == rid {
+			found = true
+		}
+	}
+	if found && !(lowest.src == src && lowest.rid == rid) {
+		w.o.stat("op_shifts_paths_of_a_3plus_destination", 1)
+		if len(w.held) > 0 {
+			w.o.stat("op_shifts_paths_while_values_are_held", 1)
+		}
 	}
 }
 
@@ -338,12 +432,17 @@ func (w *c02tW) withdraw(p *c02tPfx, src int, rid uint32, dropped bool) {
 		w.o.op("wd %d %s %d %d 1", at, p.tok, src, rid)
 		w.adj.Update([]*Path{ap})
 		w.wantDel(at, p, src, rid, true)
+		w.recheck()
 	}
 	path := w.newPath(p, src, rid, 0, true)
 	path.SetDropped(dropped)
 	w.o.op("wd %d %s %d %d %d", lt, p.tok, src, rid, d)
-	w.tm.Update(path)
-	if w.wantDel(lt, p, src, rid, false) {
+	w.movesInPlace(lt, p, src, rid)
+	us := w.tm.Update(path)
+	hit := w.wantDel(lt, p, src, rid, false)
+	w.recheck()
+	w.holdUpdates(p.show, us)
+	if hit {
 		if !dropped {
 			w.leak[lt][p.show]++
 			w.o.stat("withdraw_leaks_local_id", 1)
@@ -387,6 +486,7 @@ func (w *c02tW) peerDown(src int) {
 		w.o.op("wd %d %s %d %d 1", c02tLoc(p.fam), p.tok, src, wd.RemoteID())
 		w.tm.Update(wd)
 		w.wantDel(c02tLoc(p.fam), p, src, wd.RemoteID(), false)
+		w.recheck()
 	}
 	// anything of this source left in the oracle map was not produced by the listing: remove it
 	// through the front door so that the difference shows up as a stale path
@@ -575,6 +675,17 @@ func (w *c02tW) askGet(tab int, p *c02tPfx) {
 		}
 	}
 	w.o.ask(ans, "get %d %s", tab, p.tok)
+	if d != nil {
+		acc := "TableManager.GetDestination"
+		if adj {
+			acc = "AdjRib.table.GetDestination"
+		}
+		dd := d
+		w.hold(acc, p.show, func() string { _, s := w.destStr(dd); return s })
+	}
+	if sd := t.SelectDestination(p.nlri, DestinationSelectOption{adj: adj}); sd != nil {
+		w.hold("Table.SelectDestination", p.show, func() string { _, s := w.destStr(sd); return s })
+	}
 	if d == nil {
 		w.o.stat("get_nil", 1)
 	} else if len(d.knownPathList) == 0 {
@@ -594,6 +705,11 @@ func (w *c02tW) askList(tab int) {
 	}
 	w.checkDests("GetDestinations", tab, ds, want, adj)
 	w.o.ask(w.listing(ds), "list %d", tab)
+	acc := "Table.GetDestinations"
+	if adj {
+		acc = "AdjRib.table.GetDestinations"
+	}
+	w.hold(acc, fmt.Sprintf("table %d", tab), func() string { return w.listing(ds) })
 }
 
 func (w *c02tW) askInfo(tab int, view int) {
@@ -645,6 +761,7 @@ func (w *c02tW) askPaths(tab int, view int) {
 		w.fail("c02t-path-list", "GetPathList(view %d) table %d = [%s], the op log says [%s]", view, tab, strings.Join(got, " "), strings.Join(exp, " "))
 	}
 	w.o.ask(w.pathListing(ps), "paths %d %d", tab, view)
+	w.hold("TableManager.GetPathList", fmt.Sprintf("table %d view %d", tab, view), func() string { return w.pathsStr(ps) })
 
 	bs := w.tm.GetBestPathList(w.viewID(view), 0, fam)
 	exp = exp[:0]
@@ -664,6 +781,7 @@ func (w *c02tW) askPaths(tab int, view int) {
 		w.fail("c02t-best-list", "GetBestPathList(view %d) table %d = [%s], the op log says [%s]", view, tab, strings.Join(got, " "), strings.Join(exp, " "))
 	}
 	w.o.ask(w.pathListing(bs), "bests %d %d", tab, view)
+	w.hold("TableManager.GetBestPathList", fmt.Sprintf("table %d view %d", tab, view), func() string { return w.pathsStr(bs) })
 }
 
 func (w *c02tW) askAdjInfo(tab int) {
@@ -687,6 +805,8 @@ func (w *c02tW) askAdjInfo(tab int) {
 		w.fail("c02t-adj-info-destinations", "adj table %d: TableInfo.NumDestination=%d, the op log says %d destinations (%d paths)", tab, ti.NumDestination, nd, np)
 	}
 	w.o.ask(fmt.Sprintf("%d %d %d", ti.NumDestination, ti.NumPath, ti.NumAccepted), "adjinfo %d", tab)
+	pl := w.adj.PathList(fams, false)
+	w.hold("AdjRib.PathList", fmt.Sprintf("table %d", tab), func() string { return w.pathsStr(pl) })
 }
 
 // c02tAbort ends the current history (after a panic inside the code under test, which may have
@@ -957,6 +1077,13 @@ func (w *c02tW) askSelectQ(tab int, nq int, fixed []c02tQ) {
 	want := w.expectSelect(tab, view, adj, best, qs)
 	w.checkDests(fmt.Sprintf("Select(view %d, best %v, %v)", view, best, keys), tab, ds, want, adj)
 	w.o.ask(fmt.Sprintf("c=%d %s", r.Info().NumCollision, w.listing(ds)), "%s", line)
+	acc := "Table.Select"
+	if adj {
+		acc = "AdjRib.Select"
+	}
+	what := fmt.Sprintf("table %d view %d best %v %v", tab, view, best, keys)
+	w.hold(acc, what, func() string { return w.listing(r.GetDestinations()) })
+	w.hold(acc+".GetDestinations", what, func() string { return w.listing(ds) })
 	if len(ds) == 0 {
 		w.o.stat("select_empty", 1)
 	} else {
@@ -1015,6 +1142,11 @@ func (w *c02tW) askGroup(p *c02tPfx) {
 // ---------------------------------------------------------------- histories
 
 func (w *c02tW) pick() *c02tPfx {
+	// a few hot prefixes per history collect many paths (4 sources x 3 path ids), so that
+	// withdrawals and replacements hit the middle of long path lists
+	if len(w.hot) > 0 && w.r.chance(40) {
+		return w.hot[w.r.intn(len(w.hot))]
+	}
 	if len(w.colls) > 0 && w.r.chance(50) {
 		g := w.colls[w.r.intn(len(w.colls))]
 		return g[w.r.intn(len(g))]
@@ -1037,6 +1169,17 @@ func (w *c02tW) pickPresent() (*c02tPfx, c02tEnt, bool) {
 	if len(cand) == 0 {
 		return nil, c02tEnt{}, false
 	}
+	if w.r.chance(50) {
+		var big []*c02tPfx
+		for _, p := range cand {
+			if len(w.want[c02tLoc(p.fam)][p.show]) >= 3 {
+				big = append(big, p)
+			}
+		}
+		if len(big) > 0 {
+			cand = big
+		}
+	}
 	p := cand[w.r.intn(len(cand))]
 	l := w.want[c02tLoc(p.fam)][p.show]
 	return p, l[w.r.intn(len(l))], true
@@ -1044,12 +1187,16 @@ func (w *c02tW) pickPresent() (*c02tPfx, c02tEnt, bool) {
 
 func (w *c02tW) randomHistory(n int) {
 	w.reset()
+	w.hot = w.hot[:0]
+	for i := 0; i < 3; i++ {
+		w.hot = append(w.hot, w.pick())
+	}
 	for i := 0; i < n; i++ {
 		p := w.pick()
 		src := 1 + w.r.intn(4)
 		rid := uint32(w.r.pick(0, 0, 1, 2))
 		switch k := w.r.intn(100); {
-		case k < 50:
+		case k < 56:
 			if q, e, ok := w.pickPresent(); ok && w.r.chance(50) {
 				p = q // one more path for a destination that exists …
 				if w.r.chance(50) {
@@ -1057,7 +1204,7 @@ func (w *c02tW) randomHistory(n int) {
 				}
 			}
 			w.announce(p, src, rid, w.r.chance(20))
-		case k < 95:
+		case k < 97:
 			// withdraw: mostly aimed at something that is there (preferably in a collision chain)
 			if w.r.chance(75) {
 				if q, e, ok := w.pickPresent(); ok {
@@ -1207,6 +1354,33 @@ func (w *c02tW) corpus() {
 		w.askList(c02tAdj(4))
 	})
 	// 3. a bare IPv4 address asked of the IPv6 table: see malformedKeys
+	// 4. (seeded change C02-E) readers get snapshots: three and more paths per destination, every reader
+	//    asked, then the best / a middle path withdrawn or replaced while the readers' values are held
+	w.guarded(func() {
+		w.reset()
+		w.note("corpus 4: lookup results held across a withdrawal / replacement of a non-last path")
+		for _, p := range []*c02tPfx{w.pool[4][5], w.colls[0][0], w.colls[0][1]} {
+			for src := 1; src <= 4; src++ {
+				w.announce(p, src, 0, false)
+			}
+			w.announce(p, 1, 1, false)
+			w.announce(p, 1, 2, false)
+			w.askGroup(p)
+			w.askGet(c02tAdj(p.fam), p)
+			w.askAll(true)
+			// the best path of the op log (highest rank) goes away, then a middle one is replaced
+			l := append([]c02tEnt{}, w.want[c02tLoc(p.fam)][p.show]...)
+			sort.Slice(l, func(i, j int) bool { return l[i].rank > l[j].rank })
+			w.withdraw(p, l[0].src, l[0].rid, true)
+			w.askGroup(p)
+			w.askGet(c02tAdj(p.fam), p)
+			w.askAll(true)
+			w.announce(p, l[2].src, l[2].rid, false)
+			w.withdraw(p, 1, 0, true) // first of the Adj-RIB-In list (unless it was the best above)
+			w.withdraw(p, 1, 1, true)
+			w.askAll(true)
+		}
+	})
 }
 
 func TestVerifC02T(t *testing.T) {
